@@ -323,6 +323,9 @@ func lastLines(s string, n int) string {
 // replay re-runs the case of a replay file (the `case` field: "C10 case <json>").
 func replay(c *hx.Ctx) error {
 	data, err := os.ReadFile(c.Replay)
+	if err != nil && !filepath.IsAbs(c.Replay) { // the check runs the harness in go/, the path is relative to its parent
+		data, err = os.ReadFile(filepath.Join("..", c.Replay))
+	}
 	if err != nil {
 		return err
 	}
